@@ -35,10 +35,8 @@ def make_world(transport, workdir, k=0):
     if transport == 'pipe':
         return FdWorld(workdir, kind=FD_KINDS[k % len(FD_KINDS)], use_poll=bool((k // len(FD_KINDS)) % 2))
     if transport == 'tcpfd':
-        # the descriptor on which the peer can wake the wait without data (urgent data).  select() flavour only:
-        # fdspawn(use_poll=True) registers POLLPRI, takes the urgent condition for readability and then sits in a
-        # blocking os.read() whatever the timeout - a defect of the unchanged tree (reported), left out here
-        return FdWorld(workdir, kind='tcp', use_poll=False)
+        # the descriptor on which the peer can wake the wait without data (urgent data), select() and poll() flavour
+        return FdWorld(workdir, kind='tcp', use_poll=bool(k % 2))
     if transport == 'socket':
         return SockWorld(workdir, user_timeout=None)
     if transport == 'popen':
@@ -301,9 +299,10 @@ def wall_clock(ctx, pool):
             jobs.append((kind, use_poll, 0.7, None, True))
             jobs.append((kind, use_poll, 0.9, 0.3, True))
     # an exceptional condition on the descriptor while it waits (select() flavour; see make_world for poll())
-    jobs.append(('tcp-urgent', False, 0.6, None))
-    jobs.append(('tcp-urgent', False, 0.9, 0.3))
-    jobs.append(('tcp-urgent', False, 0.7, None, True))
+    for use_poll in (False, True):
+        jobs.append(('tcp-urgent', use_poll, 0.6, None))
+        jobs.append(('tcp-urgent', use_poll, 0.9, 0.3))
+        jobs.append(('tcp-urgent', use_poll, 0.7, None, True))
     outs = pmap(pool, wall_case, jobs, chunksize=1, timeout=600)
 
     def bad(o):
@@ -411,10 +410,10 @@ def run(ctx):
         nwall = wall_clock(ctx, pool)
     nurg = sum(1 for j in jobs if j[2] == 'tcpfd')
     ctx.note('%d timed executions of %d entry points on %d transports (fd: pipe / FIFO / pty / socketpair / TCP descriptor x select / poll) in %.0fs; '
-             '%d of them on a TCP descriptor whose peer sends urgent data at some tick (the wait is woken without data; select flavour)' % (
+             '%d of them on a TCP descriptor whose peer sends urgent data at some tick (the wait is woken without data; select and poll)' % (
                  len(recs), len(ENTRIES), len(TRANSPORTS), time.time() - t0, nurg))
     ctx.note('%d wall-clock runs (pty and pipe, select and poll, T in {0.4, 0.8, 1.5} s with a silent peer, a match arriving 0.3 s into a 0.9 s wait; '
-             'the same with SIGALRM handled by the parent every 50 ms while it waits; a TCP descriptor with urgent data pending, select): '
+             'the same with SIGALRM handled by the parent every 50 ms while it waits; a TCP descriptor with urgent data pending, select and poll): '
              'TIMEOUT not before T, not later than T + 1.5 s' % nwall)
     errs = [r for r in recs if 'error' in r]
     if errs:
@@ -495,8 +494,7 @@ def run(ctx):
                     'rounding to ticks hides overheads below half a tick (delayafterread)',
                     'signals handled by the parent while it waits: Python itself retries an interrupted select()/poll() (PEP 475), so the EINTR '
                     'branches of select_ignore_interrupts / poll_ignore_interrupts are unreachable; exercised in real time only (wall-clock runs with '
-                    'an interval timer), in the model as the EnvWake / Woken actions',
-                    'urgent data on a TCP descriptor is replayed with the select() flavour of fdspawn only (poll(): blocking read, a reported defect)'],
+                    'an interval timer), in the model as the EnvWake / Woken actions'],
         wall_s=ctx.wall(), violations=nviol)
     return status
 
